@@ -1,6 +1,7 @@
 """C13 - static and variable modification builders produce exactly the intended forms."""
 import copy
 import itertools
+import re
 from collections import Counter
 
 from hypothesis import strategies as st
@@ -114,14 +115,15 @@ def check_static(case) -> Result:
                     exp[key] = exp[key] + list(ms)
             else:
                 exp[key] = exp[key] + list(ms)
-    imods = {t_regex(t): [g for g in groups[0]] for t, groups in rules}
-    nt = _term_arg(case['nterm_rules'], static=True)
-    ct = _term_arg(case['cterm_rules'], static=True)
+    form = case.get('form', 'plain')
+    imods = {t_regex(t): _vals([g for g in groups[0]], form if form != 'scalar' else 'number') for t, groups in rules}
+    nt = _term_arg(case['nterm_rules'], static=True, form=form)
+    ct = _term_arg(case['cterm_rules'], static=True, form=form)
     eligible = [i for i in matched if i not in premod]
     r.nontrivial = len(matched) >= 2 and (bool(premod & matched) or bool(case['nterm_rules'] or case['cterm_rules']) or len(rules) >= 2)
     r.classes = [f'mode={mode}', f'rules={len(rules)}'] + (['premod-site-matched'] if premod & matched else []) + \
         (['terminal-rule'] if case['nterm_rules'] or case['cterm_rules'] else []) + sorted({t[0] for t, _g in rules})
-    ctx = dict(sequence=s, internal_mods=imods, nterm_mods=nt, cterm_mods=ct, mode=mode)
+    ctx = dict(sequence=s, internal_mods=repr(imods), nterm_mods=repr(nt), cterm_mods=repr(ct), mode=mode, form=form)
     out = pt.apply_static_mods(s, imods or None, nterm_mods=nt, cterm_mods=ct, mode=mode)
     try:
         obs = model.project(pt.parse(out))
@@ -144,7 +146,38 @@ def check_static(case) -> Result:
     return r
 
 
-def _term_arg(rules, static=False):
+def _val(tok, form):
+    """how a modification value is handed to the library: as written, as a number (numeric tokens), or as a Mod object"""
+    import peptacular as pt
+    v = tok
+    if form in ('number', 'mod') and re.fullmatch(r'-?[0-9]+\.[0-9]+', tok):
+        v = float(tok)
+    if form == 'mod':
+        v = pt.Mod(v, 1)
+    return v
+
+
+def _vals(obj, form):
+    if isinstance(obj, list):
+        return [_vals(x, form) for x in obj]
+    return _val(obj, form)
+
+
+def _term_arg(rules, static=False, form='plain'):
+    arg = _term_arg_plain(rules, static)
+    if arg is None or form == 'plain':
+        return arg
+    if form == 'scalar':
+        # a single unconditional modification may be given as a bare value
+        if isinstance(arg, list) and len(arg) == 1 and (static or (isinstance(arg[0], list) and len(arg[0]) == 1)):
+            return _val(arg[0] if static else arg[0][0], 'number')
+        return arg
+    if isinstance(arg, dict):
+        return {k: _vals(v, form) for k, v in arg.items()}
+    return _vals(arg, form)
+
+
+def _term_arg_plain(rules, static=False):
     """library argument for terminal rules: None, a bare list (unconditional) or a dict regex -> groups"""
     if not rules:
         return None
@@ -179,9 +212,10 @@ def check_variable(case) -> Result:
     r.classes = [f'mode={mode}', f'max_mods={max_mods}'] + (['terminal-rule'] if nt_alts or ct_alts else []) + \
         (['both-terminal-rules'] if both_terms else []) + (['premod-site-matched'] if premod & set(offers) else []) + \
         [f'eligible={min(len(eligible), 4)}']
-    imods = {t_regex(t): [list(g) for g in groups] for t, groups in rules}
-    nt = _term_arg(case['nterm_rules'])
-    ct = _term_arg(case['cterm_rules'])
+    form = case.get('form', 'plain')
+    imods = {t_regex(t): _vals([list(g) for g in groups], form if form != 'scalar' else 'number') for t, groups in rules}
+    nt = _term_arg(case['nterm_rules'], form=form)
+    ct = _term_arg(case['cterm_rules'], form=form)
 
     # keep the expansion small: lower max_mods until the reference enumeration has at most ~1500 forms (sizes are bounded by
     # case count, not by time; the library re-expands forms when both terminal rules apply, which squares the count)
@@ -207,7 +241,7 @@ def check_variable(case) -> Result:
     if n_forms(max_mods) > 1500:
         r.classes.append('skipped-too-large')
         return r
-    ctx = dict(sequence=s, internal_mods=imods, nterm_mods=nt, cterm_mods=ct, mode=mode, max_mods=max_mods)
+    ctx = dict(sequence=s, internal_mods=repr(imods), nterm_mods=repr(nt), cterm_mods=repr(ct), mode=mode, max_mods=max_mods, form=form)
     out = pt.apply_variable_mods(s, imods or None, max_mods, nterm_mods=nt, cterm_mods=ct, mode=mode)
     if not isinstance(out, list):
         r.fail('returns a list', 'C13/variable/type', got=type(out).__name__, **ctx)
@@ -339,7 +373,7 @@ def case_strategy(variable):
                     g = []
                     for _ in range(draw(st.sampled_from([1, 1, 2]))):
                         counter[0] += 1
-                        g.append(f'm{counter[0]}')
+                        g.append(f'm{counter[0]}' if draw(st.integers(0, 4)) else f'{counter[0]}.5')
                     pool.append(list(g))
                 out.append(g)
             if not out:
@@ -356,9 +390,13 @@ def case_strategy(variable):
             seen.add(t_regex(t))
             rules.append([t, groups()])
 
-        def term_rules():
+        def term_rules(which='n'):
             if draw(st.integers(0, 1)) != 1:
                 return []
+            if draw(st.integers(0, 2)) == 1:
+                # two rules that both apply to this terminus: an unconditional one and one conditioned on the terminal residue
+                aa = seq[0] if which == 'n' else seq[-1]
+                return [[None, groups()], [['let', aa], groups()]]
             out, seen_t = [], set()
             for _ in range(draw(st.integers(1, 2))):
                 cond = draw(st.one_of(st.none(), st.none(), tg))
@@ -369,8 +407,9 @@ def case_strategy(variable):
                 out.append([cond, groups()])
             return out
 
-        case = {'pep': pep, 'rules': rules, 'nterm_rules': term_rules(), 'cterm_rules': term_rules(),
-                'mode': draw(st.sampled_from(['skip', 'skip', 'append', 'overwrite']))}
+        case = {'pep': pep, 'rules': rules, 'nterm_rules': term_rules('n'), 'cterm_rules': term_rules('c'),
+                'mode': draw(st.sampled_from(['skip', 'skip', 'append', 'overwrite'])),
+                'form': draw(st.sampled_from(['plain', 'plain', 'number', 'mod', 'scalar', 'scalar']))}
         if variable:
             case['max_mods'] = draw(st.integers(0, 4))
         return case
